@@ -290,7 +290,10 @@ func (runInfo *runInfoStruct) invokeAddrExpr(expr *ast.AddrExpr) {
 		return
 	}
 
-	if runInfo.rv.CanAddr() && !(runInfo.rv.Kind() == reflect.Interface && runInfo.rv.IsNil()) {
+	// the address of a variable is the address of a copy of its value, wherever that value came from (a
+	// variable bound from a slice element holds an addressable copy; it must not behave differently)
+	_, isVariable := expr.Expr.(*ast.IdentExpr)
+	if !isVariable && runInfo.rv.CanAddr() && !(runInfo.rv.Kind() == reflect.Interface && runInfo.rv.IsNil()) {
 		runInfo.rv = runInfo.rv.Addr()
 	} else {
 		// also for nil: the nil value is shared by every run, its address must not be handed out
